@@ -101,11 +101,13 @@ func c45NewRing(spec c45HashSpec, replicas, probes int, seen map[uint64]map[stri
 func TestVerifC45HashRing(t *testing.T) {
 	ev.Quiet()
 	rec := ev.New("C45", "hashring",
-		"rapid state machine over one hashring.Ring[string] per case: Insert (new / update / re-insert before and after the deferred sweep), Remove (live / absent / already queued), Lookup over <=12 node names and a pool of load-balancer addresses; hash = library default, FNV, or a weak hash (constant, mod k, k spread positions incl. near MaxUint64, top-of-range, salt-ignoring); replicas in {default,1,2,3,10,100}, probes in {default,1,2,3,5}. Every Lookup is compared with two fresh rings built from the live member set in sorted and in reverse order. Non-trivial = a live member was removed and a later Lookup ran with >=2 live members; distinct = (hash kind, replicas, probes, op-kind sequence)",
+		"rapid state machine over one hashring.Ring[string] per case: Insert (new / update / re-insert before and after the deferred sweep), Remove (live / absent / already queued), Lookup over <=12 node names (lower/upper/mixed case, dots, underscores, pairs differing only by case) and a pool of load-balancer addresses; hash = library default, FNV, or a weak hash (constant, mod k, k spread positions incl. near MaxUint64, top-of-range, salt-ignoring); replicas in {default,1,2,3,10,100}, probes in {default,1,2,3,5}. Every Lookup is compared with two fresh rings built from the live member set in sorted and in reverse order. Non-trivial = a live member was removed and a later Lookup ran with >=2 live members; distinct = (hash kind, replicas, probes, op-kind sequence)",
 		"hash functions are pure functions of the bytes (documented requirement of WithHash)", "single goroutine (Ring is documented as not safe for concurrent use)")
 	defer rec.Write()
 
-	names := []string{"node-0", "node-1", "node-2", "node-3", "node-4", "node-5", "node-6", "node-7", "node-8", "node-9", "node-10", "node-11"}
+	// Node names as Felix accepts them ([a-zA-Z0-9_.-]+): lower case, upper case, dots, underscores
+	// and names that differ only by case (distinct keys: the ring is keyed by the exact string).
+	names := []string{"node-0", "Node-0", "node-1", "Worker-B", "worker-b", "node.Example.com", "NODE-2", "rack_1.host-7", "node-8", "node.example.com", "node-10", "N"}
 	addrs := []string{"10.0.0.1", "10.0.0.2", "10.0.0.3", "192.168.7.250", "172.16.0.1", "fd00::1", "fd00::2", "2001:db8::ffff", "10.0.0.10", "10.0.0.11", "", "node-0"}
 
 	rapid.Check(t, func(t *rapid.T) {
@@ -117,7 +119,7 @@ func TestVerifC45HashRing(t *testing.T) {
 			spec.K = rapid.SampledFrom([]uint64{1, 2, 3, 5, 8, 17}).Draw(t, "distinctHashValues")
 		}
 		replicas := rapid.SampledFrom([]int{0, 1, 1, 2, 2, 3, 3, 10, 10, 100}).Draw(t, "replicas") // 0 = library default
-		probes := rapid.SampledFrom([]int{0, 1, 1, 2, 3, 5}).Draw(t, "probes")           // 0 = library default
+		probes := rapid.SampledFrom([]int{0, 1, 1, 2, 3, 5}).Draw(t, "probes")                     // 0 = library default
 		nNames := rapid.IntRange(2, len(names)).Draw(t, "nNames")
 
 		seen := map[uint64]map[string]bool{}
@@ -130,6 +132,7 @@ func TestVerifC45HashRing(t *testing.T) {
 		removedLive := false
 		nontrivial := false
 		reBefore, reAfter := false, false
+		upperRemoved, twinsLive := false, false
 		lookups := 0
 
 		liveSorted := func() []string {
@@ -216,6 +219,11 @@ func TestVerifC45HashRing(t *testing.T) {
 				}
 				ring.Insert(k, v)
 				live[k] = v
+				for o := range live {
+					if o != k && strings.EqualFold(o, k) {
+						twinsLive = true
+					}
+				}
 				delete(queued, k)
 				checkLen()
 			},
@@ -227,6 +235,9 @@ func TestVerifC45HashRing(t *testing.T) {
 					}
 				}
 				if _, ok := live[k]; ok {
+					if k != strings.ToLower(k) {
+						upperRemoved = true
+					}
 					ops = append(ops, "d")
 					removedLive = true
 					queued[k] = true
@@ -263,6 +274,12 @@ func TestVerifC45HashRing(t *testing.T) {
 			}
 		}
 		classes := []string{"hash-" + spec.Kind}
+		if upperRemoved {
+			classes = append(classes, "member-with-upper-case-name-removed")
+		}
+		if twinsLive {
+			classes = append(classes, "members-differing-only-by-case-live-together")
+		}
 		if collisions {
 			classes = append(classes, "colliding-ring-positions")
 		}
